@@ -407,7 +407,8 @@ theorem C20_factory_version_untouched (k : FKind) (sp : Spec) (msg : Option FMsg
 from parameters explicitly supplied with a factory migration and the documented one-time initialisations" -/
 
 /-- Everything outside the eight mechanism items (config, supply, counters, balances ledger, token maps, members,
-…) is untouched by every `migrate` of the workspace — all 7 kinds, accepted or refused. -/
+…) is untouched by every `migrate` of the workspace — all 7 kinds, accepted or refused — restates that no `migrate*`
+definition mentions `St.other` (true of the model by construction); validated on the code by the raw storage diff only. -/
 theorem C20_other_untouched (sp : Spec) (now : Nat) (msg : Option FMsg) (s : St) :
     (migrate' sp now msg s).other = s.other := by
   unfold migrate'
@@ -527,7 +528,8 @@ theorem C20_factory_frame (k : FKind) (sp : Spec) (msg : Option FMsg) (s s' : St
   | some m => obtain ⟨p, hp, _, hs'⟩ := hm; exact ⟨p, hp, hs'⟩
 
 /-- a *scalar* parameter for which nothing was supplied keeps its value (all four factories, all twelve scalar
-fields; the code-id list is treated separately below because the literal clause is FALSE for it) -/
+fields; the code-id list is treated separately below because the literal clause, read strictly, does not hold for it —
+recorded as an observation (DESIGN 13.3), not a finding) -/
 theorem C20_factory_unsupplied_kept (k : FKind) (p : FParams) (m : FMsg) :
     (m.codeId = none → (applied k p m).codeId = p.codeId) ∧
     (m.frozen = none → (applied k p m).frozen = p.frozen) ∧
@@ -543,7 +545,7 @@ theorem C20_factory_unsupplied_kept (k : FKind) (p : FParams) (m : FMsg) :
     (m.devFeeAddr = none → (applied k p m).devFeeAddr = p.devFeeAddr) := by
   cases k <;> simp [applied] <;> (try intros) <;> simp_all
 
-/-! ### The code-id list: the literal clause is FALSE on the unchanged code
+/-! ### The code-id list: the literal clause, read strictly, does not hold (observation, DESIGN 13.3 — not a finding)
 
 FULL STATEMENT (what "every configuration … value that could be queried before is unchanged, apart from parameters
 explicitly supplied with a factory migration" says for `allowed_sg721_code_ids`, queried by `Params {}` and
